@@ -405,19 +405,23 @@ Proof.
         -- intros cl Hin. apply in_app_iff in Hin. destruct Hin as [Hin|Hin]; [apply Hc1|apply Hc2]; exact Hin.
 Qed.
 
-(* an expired timer is justified by some watermark message handled so far: it is not later than the composite
-   that held right after one of them *)
-Definition timer_ok (ids : list N) (msgs : list (N * Z)) (t : Z) : Prop :=
-  exists n, (0 < n <= length msgs)%nat /\ t <= spec_composite ids (firstn n msgs).
+(* an expired timer is justified by a watermark message handled earlier (in this or an earlier deployment): it
+   is not later than the composite that held right after that message *)
+Definition fired_ok (ids0 : list N) (pre : list oop) (t : Z) : Prop :=
+  exists a s p b, pre = a ++ OWm s p :: b /\ t <= spec_at ids0 (a ++ [OWm s p]).
 
-Lemma timer_ok_app : forall ids msgs more t, timer_ok ids msgs t -> timer_ok ids (msgs ++ more) t.
+Lemma fired_ok_app : forall ids0 pre more t, fired_ok ids0 pre t -> fired_ok ids0 (pre ++ more) t.
 Proof.
-  intros ids msgs more t [n [Hn Hle]]. exists n. split; [rewrite app_length; lia|].
-  rewrite firstn_app. replace (n - length msgs)%nat with O by lia. cbn [firstn]. rewrite app_nil_r. exact Hle.
+  intros ids0 pre more t [a [s [p [b [-> Hle]]]]]. exists a, s, p, (b ++ more). split; [|exact Hle].
+  rewrite <- app_assoc. reflexivity.
 Qed.
 
-Definition op_inv (ids : list N) (msgs : list (N * Z)) (st : opst) : Prop :=
-  reg_inv ids msgs (o_reg st) /\ ht_ok (timer_ok ids msgs) (o_batch st).
+Lemma drun_app1 : forall d pre o, drun d (pre ++ [o]) = dstep (drun d pre) o.
+Proof. intros d pre o. unfold drun. rewrite fold_left_app. reflexivity. Qed.
+
+Definition op_inv (ids0 : list N) (pre : list oop) (st : opst) : Prop :=
+  reg_inv (fst (drun (ids0, []) pre)) (snd (drun (ids0, []) pre)) (o_reg st) /\
+  ht_ok (fired_ok ids0 pre) (o_batch st).
 
 Lemma oop_msgs_app : forall a b, oop_msgs (a ++ b) = oop_msgs a ++ oop_msgs b.
 Proof.
@@ -428,30 +432,88 @@ Qed.
 Lemma reg_inv_same : forall ids msgs r r', reg_inv ids msgs r -> r_ups r' = r_ups r -> r_wm r' = r_wm r -> reg_inv ids msgs r'.
 Proof. intros ids msgs r r' [Hu Hw] H1 H2. split; [rewrite H1; exact Hu|rewrite H2; exact Hw]. Qed.
 
-Lemma op_step_spec : forall h m ids msgs st o st' calls,
-  op_inv ids msgs st -> op_step h m st o = (st', calls) ->
-  let msgs' := msgs ++ oop_msgs [o] in
-  op_inv ids msgs' st' /\ told_ok (spec_composite ids msgs') calls /\ calls_ht_ok (timer_ok ids msgs') calls.
+Lemma ht_ok_app1 : forall ids0 pre o evs, ht_ok (fired_ok ids0 pre) evs -> ht_ok (fired_ok ids0 (pre ++ [o])) evs.
+Proof. intros ids0 pre o evs H k t Hin. apply fired_ok_app. eapply H. exact Hin. Qed.
+
+Lemma op_step_spec : forall h m ids0 pre st o st' calls,
+  op_inv ids0 pre st -> op_step h m st o = (st', calls) ->
+  op_inv ids0 (pre ++ [o]) st' /\ told_ok (spec_at ids0 (pre ++ [o])) calls /\
+  calls_ht_ok (fired_ok ids0 (pre ++ [o])) calls.
 Proof.
-  intros h m ids msgs st o st' calls [Hreg Hb] H msgs'. destruct o as [s id key timers|s p|s]; cbn [op_step oop_msgs] in *.
-  - subst msgs'. rewrite app_nil_r.
-    destruct (add_event_spec _ _ _ _ _ _ (timer_ok ids msgs) H Hb) as [[Hu Hw] [Ht [Hb' Hc]]]; [intros ? ? Heq; discriminate|].
+  intros h m ids0 pre st o st' calls [Hreg Hb] H.
+  pose proof (ht_ok_app1 ids0 pre o _ Hb) as Hb1.
+  unfold op_inv, spec_at. rewrite drun_app1.
+  destruct (drun (ids0, []) pre) as [ids msgs] eqn:Ed. cbn [fst snd] in Hreg.
+  destruct o as [s id key timers|s p|s|ids']; cbn [op_step dstep fst snd] in *.
+  - destruct (add_event_spec _ _ _ _ _ _ (fired_ok ids0 (pre ++ [OEv s id key timers])) H Hb1) as [[Hu Hw] [Ht [Hb' Hc]]]; [intros ? ? Heq; discriminate|].
     split; [split; [eapply reg_inv_same; eassumption|exact Hb']|].
     split; [|exact Hc]. destruct Hreg as [_ Hwm]. rewrite <- Hwm. exact Ht.
-  - subst msgs'.
-    pose proof (reg_inv_note ids msgs (o_reg st) s p Hreg) as Hnote.
+  - pose proof (reg_inv_note ids msgs (o_reg st) s p Hreg) as Hnote.
     set (r1 := reg_note (o_reg st) s p) in *.
-    eapply (fire_loop_spec _ _ _ (timer_ok ids (msgs ++ [(s, as_time p)]))) in H.
+    eapply (fire_loop_spec _ _ _ (fired_ok ids0 (pre ++ [OWm s p]))) in H.
     + destruct H as [[Hu Hw] [Ht [Hb' Hc]]]. cbn [o_reg] in Hu, Hw, Ht.
       split; [split; [eapply reg_inv_same; eassumption|exact Hb']|].
       split; [|exact Hc]. destruct Hnote as [_ Hwm]. rewrite <- Hwm. exact Ht.
-    + cbn [o_batch]. intros k t Hin. apply timer_ok_app. eapply Hb. exact Hin.
-    + intros t Hle. exists (length (msgs ++ [(s, as_time p)])). split; [rewrite app_length; cbn; lia|].
-      rewrite firstn_all. destruct Hnote as [_ Hwm]. rewrite <- Hwm. exact Hle.
-  - subst msgs'. rewrite app_nil_r.
-    destruct (process_batch_spec _ _ _ _ (timer_ok ids msgs) H Hb) as [[Hu Hw] [Ht [Hb' Hc]]].
+    + cbn [o_batch]. exact Hb1.
+    + intros t Hle. exists pre, s, p, []. split; [reflexivity|].
+      unfold spec_at. rewrite drun_app1, Ed. cbn [dstep fst snd].
+      destruct Hnote as [_ Hwm]. rewrite <- Hwm. exact Hle.
+  - destruct (process_batch_spec _ _ _ _ (fired_ok ids0 (pre ++ [OComplete s])) H Hb1) as [[Hu Hw] [Ht [Hb' Hc]]].
     split; [split; [eapply reg_inv_same; eassumption|exact Hb']|].
     split; [|exact Hc]. destruct Hreg as [_ Hwm]. rewrite <- Hwm. exact Ht.
+  - inversion H; subst. cbn [o_reg o_batch].
+    split; [split; [apply reg_inv_new|exact Hb1]|]. split; intros ? [].
+Qed.
+
+Lemma op_inv_new : forall ids, op_inv ids [] (op_new ids).
+Proof. intro ids. split; [apply reg_inv_new|intros ? ? []]. Qed.
+
+Lemma op_trace_spec_gen : forall h m ops ids0 pre st i calls,
+  op_inv ids0 pre st -> nth_error (op_trace h m st ops) i = Some calls ->
+  told_ok (spec_at ids0 (pre ++ firstn (S i) ops)) calls /\
+  calls_ht_ok (fired_ok ids0 (pre ++ firstn (S i) ops)) calls.
+Proof.
+  intros h m. induction ops as [|o ops IH]; intros ids0 pre st i calls Hinv H; cbn [op_trace] in H.
+  - destruct i; discriminate.
+  - destruct (op_step h m st o) as [st' calls'] eqn:E.
+    destruct (op_step_spec _ _ _ _ _ _ _ _ Hinv E) as [Hinv' [Ht Hc]].
+    destruct i as [|i]; cbn [nth_error] in H.
+    + inversion H; subst. cbn [firstn]. split; assumption.
+    + specialize (IH ids0 _ _ _ _ Hinv' H).
+      replace (pre ++ firstn (S (S i)) (o :: ops)) with ((pre ++ [o]) ++ firstn (S i) ops); [exact IH|].
+      rewrite <- app_assoc. reflexivity.
+Qed.
+
+(* without a redeploy the specification is the composite of the watermark messages of the history *)
+Lemma spec_at_no_deploy : forall ids0 pre,
+  (forall ids, ~ In (ODeploy ids) pre) -> spec_at ids0 pre = spec_composite ids0 (oop_msgs pre).
+Proof.
+  intros ids0 pre Hn. unfold spec_at.
+  assert (Hd : drun (ids0, []) pre = (ids0, oop_msgs pre)).
+  { induction pre as [|o pre IH] using rev_ind; [reflexivity|].
+    rewrite drun_app1, IH, oop_msgs_app.
+    - destruct o as [s id key timers|s p|s|ids']; cbn [dstep oop_msgs fst snd]; rewrite ?app_nil_r; try reflexivity.
+      exfalso. apply (Hn ids'). apply in_app_iff. right. left. reflexivity.
+    - intros ids Hin. apply (Hn ids). apply in_app_iff. left. exact Hin. }
+  rewrite Hd. reflexivity.
+Qed.
+
+(* right after a (re)deploy, and until the deployment's first watermark message, it is the epoch *)
+Lemma spec_at_after_deploy : forall ids0 pre ids post,
+  (forall s p, ~ In (OWm s p) post) -> (forall ids', ~ In (ODeploy ids') post) ->
+  spec_at ids0 (pre ++ ODeploy ids :: post) = epoch.
+Proof.
+  intros ids0 pre ids post Hw Hdp. unfold spec_at.
+  assert (Hd : drun (ids0, []) (pre ++ ODeploy ids :: post) = (ids, [])).
+  { unfold drun. rewrite fold_left_app. cbn [fold_left dstep].
+    generalize dependent post. induction post as [|o post IH] using rev_ind; intros Hw Hdp; [reflexivity|].
+    rewrite fold_left_app. cbn [fold_left]. rewrite IH.
+    - destruct o as [s id key timers|s p|s|ids']; cbn [dstep fst snd]; try reflexivity.
+      + exfalso. apply (Hw s p). apply in_app_iff. right. left. reflexivity.
+      + exfalso. apply (Hdp ids'). apply in_app_iff. right. left. reflexivity.
+    - intros s p Hin. apply (Hw s p). apply in_app_iff. left. exact Hin.
+    - intros ids' Hin. apply (Hdp ids'). apply in_app_iff. left. exact Hin. }
+  rewrite Hd. apply spec_composite_nil.
 Qed.
 
 (* SourceComplete leaves the upstream table and the cached composite untouched: a finished runner's last
@@ -463,26 +525,6 @@ Proof.
   intros h m st s. cbn [op_step]. destruct (process_batch h st) as [st' calls] eqn:E. cbn [fst].
   destruct (process_batch_spec h st st' calls (fun _ => True) E) as [[Hu Hw] _]; [intros ? ? ?; exact I|].
   split; assumption.
-Qed.
-
-Lemma op_inv_new : forall ids, op_inv ids [] (op_new ids).
-Proof. intro ids. split; [apply reg_inv_new|intros ? ? []]. Qed.
-
-Lemma op_trace_spec_gen : forall h m ops ids msgs st i calls,
-  op_inv ids msgs st -> nth_error (op_trace h m st ops) i = Some calls ->
-  let msgs' := msgs ++ oop_msgs (firstn (S i) ops) in
-  told_ok (spec_composite ids msgs') calls /\ calls_ht_ok (timer_ok ids msgs') calls.
-Proof.
-  intros h m. induction ops as [|o ops IH]; intros ids msgs st i calls Hinv H; cbn [op_trace] in H.
-  - destruct i; discriminate.
-  - destruct (op_step h m st o) as [st' calls'] eqn:E.
-    destruct (op_step_spec _ _ _ _ _ _ _ _ Hinv E) as [Hinv' [Ht Hc]].
-    destruct i as [|i]; cbn [nth_error] in H.
-    + inversion H; subst. cbn [firstn]. split; assumption.
-    + specialize (IH ids _ _ _ _ Hinv' H). cbn zeta in IH.
-      replace (msgs ++ oop_msgs (firstn (S (S i)) (o :: ops))) with ((msgs ++ oop_msgs [o]) ++ oop_msgs (firstn (S i) ops)); [exact IH|].
-      rewrite <- app_assoc. f_equal.
-      change (firstn (S (S i)) (o :: ops)) with ([o] ++ firstn (S i) ops). rewrite oop_msgs_app. reflexivity.
 Qed.
 
 (* ---------- full statements used by Props/C11.v ---------- *)
@@ -517,17 +559,26 @@ Proof. intros r k t H. unfold set_timer. destruct (r_wm r <? t) eqn:E; [apply Z.
 
 Lemma handler_told_composite_full : forall (h : handler) ids m ops i calls,
   nth_error (op_trace h m (op_new ids) ops) i = Some calls ->
-  forall c, In c calls -> c_told c = pb_new (spec_composite ids (oop_msgs (firstn (S i) ops))).
+  forall c, In c calls -> c_told c = pb_new (spec_at ids (firstn (S i) ops)).
 Proof. intros h ids m ops i calls H. exact (proj1 (op_trace_spec_gen h m ops ids [] (op_new ids) i calls (op_inv_new ids) H)). Qed.
 
 Lemma no_timer_beyond_min_at_handler_full : forall (h : handler) ids m ops i calls,
   nth_error (op_trace h m (op_new ids) ops) i = Some calls ->
   forall c, In c calls -> forall k t, In (HT k t) (c_events c) ->
-  exists n, (0 < n <= length (oop_msgs (firstn (S i) ops)))%nat /\
-            t <= spec_composite ids (firstn n (oop_msgs (firstn (S i) ops))).
+  exists a s p b, firstn (S i) ops = a ++ OWm s p :: b /\ t <= spec_at ids (a ++ [OWm s p]).
 Proof.
   intros h ids m ops i calls H c Hc k t Hin.
   exact (proj2 (op_trace_spec_gen h m ops ids [] (op_new ids) i calls (op_inv_new ids) H) c Hc k t Hin).
+Qed.
+
+Lemma spec_at_full : forall ids0 pre,
+  ((forall ids, ~ In (ODeploy ids) pre) -> spec_at ids0 pre = spec_composite ids0 (oop_msgs pre)) /\
+  (forall a ids post, pre = a ++ ODeploy ids :: post ->
+     (forall s p, ~ In (OWm s p) post) -> (forall ids', ~ In (ODeploy ids') post) -> spec_at ids0 pre = epoch) /\
+  spec_at ids0 pre = spec_composite (fst (drun (ids0, []) pre)) (snd (drun (ids0, []) pre)).
+Proof.
+  intros ids0 pre. split; [apply spec_at_no_deploy|]. split; [|reflexivity].
+  intros a ids post -> Hw Hd. apply spec_at_after_deploy; assumption.
 Qed.
 
 Lemma tins_sorted_in : forall x l, In x (tins_sorted x l).
@@ -560,7 +611,7 @@ Qed.
 Lemma handler_told_before_fix_refuted :
   exists ids ops calls c,
     nth_error (op_trace (fun _ _ => []) 1 {| o_reg := reg_new_before_fix ids; o_batch := [] |} ops) 0 = Some calls /\
-    In c calls /\ c_told c <> pb_new (spec_composite ids (oop_msgs (firstn 1 ops))).
+    In c calls /\ c_told c <> pb_new (spec_at ids (firstn 1 ops)).
 Proof.
   exists [1%N], [OEv 1 1 0 []]. eexists. eexists. split; [reflexivity|]. split; [left; reflexivity|].
   vm_compute. discriminate.
